@@ -795,10 +795,11 @@ impl CodegenContext {
             }
             Token::File { filename, .. } => {
                 let span = filename.lquote.span;
-                let evaluated_filename = self
-                    .get_evaluator()
+                let ctx = self.get_evaluator();
+                let evaluated_filename = ctx
                     .interpolate(filename, true)
                     .map_err(|e| self.map_evaluation_error(e))?;
+                self.record_usages(ctx.usages());
                 let source_file: PathBuf = self.tree.code_map.look_up_span(span).file.name().into();
                 let filename = match source_file.parent() {
                     Some(parent) => parent.join(&evaluated_filename),
@@ -1317,6 +1318,26 @@ impl CodegenContext {
             .into()
     }
 
+    /// Books what an evaluation looked up: usages for the analysis, unknown identifiers for the next pass
+    fn record_usages(&mut self, usages: Vec<SymbolUsage>) {
+        for usage in usages {
+            self.analysis.add_symbol_usage(
+                &self.symbols,
+                self.current_scope_nx,
+                &usage.path.data,
+                usage.path.span,
+            );
+
+            if usage.symbol_index.is_none() {
+                self.undefined.insert(UndefinedSymbol {
+                    scope_nx: self.current_scope_nx,
+                    id: usage.path.data,
+                    span: Some(usage.path.span),
+                });
+            }
+        }
+    }
+
     pub fn evaluate_expression(
         &mut self,
         expr: &Located<Expression>,
@@ -1327,22 +1348,7 @@ impl CodegenContext {
             .evaluate_expression(expr, track_usage)
             .map_err(|e| self.map_evaluation_error(e))?;
         if track_usage {
-            for usage in ctx.usages() {
-                self.analysis.add_symbol_usage(
-                    &self.symbols,
-                    self.current_scope_nx,
-                    &usage.path.data,
-                    usage.path.span,
-                );
-
-                if usage.symbol_index.is_none() {
-                    self.undefined.insert(UndefinedSymbol {
-                        scope_nx: self.current_scope_nx,
-                        id: usage.path.data,
-                        span: Some(usage.path.span),
-                    });
-                }
-            }
+            self.record_usages(ctx.usages());
         }
         Ok(result)
     }
